@@ -329,3 +329,337 @@ Proof.
              - apply (ebound_base_failing exp l l' L'' e acc n HC HE). exact Hb1. }
            destruct Hfail as [X|X]; rewrite X; [left|right]; apply in_app_iff; right; left; reflexivity.
 Qed.
+
+(* ---------- the comprehension context as a package ---------- *)
+Record CX (exp : expmap) (ex : list nat) (s : st) (Cf : list cscope) : Prop := mkCX {
+  cx_f : CF exp s Cf;
+  cx_in : forall c, In c Cf -> In (cs_id c) ex;
+  cx_nd : NoDup (map cs_id Cf);
+  cx_del : forall c, In c Cf -> cs_id c <> delayed_id }.
+(* PySem's frames stand for every open comprehension, or for all but the innermost one, which is still empty (while
+   the iterable of its first generator is evaluated) *)
+Definition Shape (Cf C : list cscope) : Prop := C = Cf \/ exists c0, Cf = c0 :: C /\ cs_acc c0 = [].
+
+Lemma cload : forall exp l L' acc accs ex s e tr Cf C ks n a,
+  Inv2 exp l L' acc accs ex s e tr -> CX exp ex s Cf -> CE C ks -> Shape Cf C -> Cf <> [] ->
+  let s' := load s (stack_of (l :: L') ++ cids Cf) (n :: a) in
+  exists exp', ext (next_id s) exp exp' /\
+     Inv2 exp' l L' acc accs ex s' e (tr ++ [(lineno s, n, resolve n (ks ++ e))]) /\
+     CX exp' ex s' Cf /\ lineno s' = lineno s /\ next_id s <= next_id s'.
+Proof.
+  intros exp l L' acc accs ex s e tr Cf C ks n a [HS HX HL HC HE HT] [HF Hin Hnd Hdel] HCE Hsh Hne. cbv zeta.
+  destruct L' as [|l' L''].
+  - (* module level: immediate *)
+    assert (accs = []). { pose proof (st_top _ _ _ _ _ HS) as Ht. inversion Ht as [|? ? ? ? _ Ht']; subst. inversion Ht'. reflexivity. }
+    subst accs.
+    assert (Hdec : exists pre, Cf = pre ++ C /\ Forall (fun c => cs_acc c = []) pre).
+    { destruct Hsh as [->|(c0 & -> & Hnil)]. exists []. split; auto. exists [c0]. split; auto. }
+    destruct Hdec as (pre & -> & Hpre).
+    destruct (cload_imm exp l acc ex s e tr n a pre C ks HS HX HC HE HT HF Hpre HCE) as (S1 & T1 & F1 & Ln1 & N1 & Fd1).
+    exists exp. split. apply ext_refl. split; [|split; [|split; [exact Ln1|lia]]].
+    + constructor; auto. intros i Hi. rewrite N1. auto.
+    + constructor; auto.
+  - (* inside a function: two deferrals *)
+    destruct Cf as [|c0 C0]. congruence.
+    assert (Hsh' : C = c0 :: C0 \/ (C = C0 /\ cs_acc c0 = [])).
+    { destruct Hsh as [->|(c1 & E & Hnil)]. left; reflexivity. injection E as <- <-. right. auto. }
+    unfold load. rewrite (st_fd _ _ _ _ _ HS). cbn [length Nat.eqb negb].
+    destruct (cdefer_step exp l l' L'' accs acc ex s e tr n a c0 C0 C ks HS HX HC HE HT HF HCE Hsh')
+      as (exp1 & X1 & S1 & C1 & T1 & F1 & Ln1 & N1 & Fd1).
+    cbv zeta in S1, T1, F1, Ln1, N1, Fd1.
+    set (s1 := defer_load s (stack_of (l :: l' :: L'') ++ cids (c0 :: C0)) (n :: a)) in *.
+    destruct (cdefer_step exp1 l l' L'' accs acc ex s1 e _ n a c0 C0 C ks S1 HX C1 HE T1 F1 HCE Hsh')
+      as (exp2 & X2 & S2 & C2 & T2 & F2 & Ln2 & N2 & Fd2).
+    cbv zeta in S2, T2, F2, Ln2, N2, Fd2.
+    exists exp2. split. eapply ext_trans; [exact N1|exact X1|exact X2].
+    split; [|split; [|split; [congruence|lia]]].
+    + constructor; auto.
+      * intros i Hi. specialize (HL i Hi). lia.
+      * eapply TrI_perm; [|exact T2]. intro x. rewrite Ln1, !in_app_iff. cbn. tauto.
+    + constructor; auto.
+Qed.
+
+(* ---------- storing a comprehension target ---------- *)
+Lemma cstore : forall exp l L' acc accs ex s e tr c0 C0 x,
+  Inv2 exp l L' acc accs ex s e tr -> CX exp ex s (c0 :: C0) -> x <> n_star -> In x (cs_T c0) ->
+  let s' := store false s (stack_of (l :: L') ++ cids (c0 :: C0)) [x] Plain in
+  Inv2 exp l L' acc accs ex s' e tr /\ CX exp ex s' (mkCS (cs_id c0) (cs_T c0) (cs_acc c0 ++ [x]) :: C0) /\
+  lineno s' = lineno s /\ next_id s' = next_id s.
+Proof.
+  intros exp l L' acc accs ex s e tr c0 C0 x [HS HX HL HC HE HT] [HF Hin Hnd Hdel] Hx HxT. cbv zeta.
+  rewrite store_false. rewrite cids_cons, app_assoc, top_snoc.
+  pose proof HF as HF'. unfold CF in HF'. rewrite Forall_forall in HF'.
+  destruct (HF' c0 (or_introl eq_refl)) as (A1 & A2 & A3 & A4).
+  assert (Hoff : ~ In (cs_id c0) (stack_of (l :: L'))) by (apply (ex_off _ _ HX); apply Hin; left; reflexivity).
+  destruct (store_off_stack exp (l :: L') (acc :: accs) ex s (cs_id c0) x HS (Hin c0 (or_introl eq_refl)) Hoff A4
+              (Hdel c0 (or_introl eq_refl)) Hx (proj2 (A3 x) HxT)) as (S1 & Em & Ed & El & Enx & Efd & Hh).
+  cbv zeta in S1, Em, Ed, El, Enx, Efd, Hh.
+  split; [|split; [|split; [exact El|exact Enx]]].
+  - constructor; auto. intros i Hi. rewrite Enx. auto. eapply TrI_same; eauto.
+  - constructor; auto.
+    + unfold CF. constructor.
+      * cbn [cs_id cs_T cs_acc]. split.
+        { intro y. rewrite Hh, orb_true_iff, A1, N.eqb_eq. rewrite (in_app_iff (cs_acc c0) [x] y). cbn [In]. intuition. }
+        split. intros y Hy. apply in_app_iff in Hy as [Hy|[<-|[]]]; auto. split. exact A3. rewrite Enx. exact A4.
+      * rewrite Forall_forall. intros c Hc. destruct (HF' c (or_intror Hc)) as (B1 & B2 & B3 & B4).
+        assert (Hne : cs_id c <> cs_id c0).
+        { cbn [map] in Hnd. inversion Hnd as [|? ? Hn _]; subst. intro E. apply Hn. rewrite <- E. apply in_map. exact Hc. }
+        split. intro y. unfold has. rewrite scope_dict_set_in_scope.
+        destruct (Nat.eqb (cs_id c0) (cs_id c)) eqn:E. apply Nat.eqb_eq in E. congruence. apply B1.
+        split. exact B2. split. exact B3. rewrite Enx. exact B4.
+    + intros c [<-|Hc]; cbn [cs_id]. apply Hin. left; reflexivity. apply Hin. right. exact Hc.
+    + intros c [<-|Hc]; cbn [cs_id]. apply Hdel. left; reflexivity. apply Hdel. right. exact Hc.
+Qed.
+
+Lemma cnames : forall names exp l L' acc accs ex s e tr c0 C0,
+  Inv2 exp l L' acc accs ex s e tr -> CX exp ex s (c0 :: C0) -> Forall (fun x => x <> n_star) names -> incl names (cs_T c0) ->
+  let s' := fold_left (fun s x => store false s (stack_of (l :: L') ++ cids (c0 :: C0)) [x] Plain) names s in
+  Inv2 exp l L' acc accs ex s' e tr /\ CX exp ex s' (mkCS (cs_id c0) (cs_T c0) (cs_acc c0 ++ names) :: C0) /\
+  lineno s' = lineno s /\ next_id s' = next_id s.
+Proof.
+  induction names as [|x names IH]; intros exp l L' acc accs ex s e tr c0 C0 HI HX Hns Hin; cbn [fold_left].
+  - rewrite app_nil_r. destruct c0. auto.
+  - inversion Hns as [|? ? Hx Hns']; subst.
+    destruct (cstore _ _ _ _ _ _ _ _ _ c0 C0 x HI HX Hx (Hin x (or_introl eq_refl))) as (I1 & X1 & Ln1 & N1).
+    cbv zeta in I1, X1, Ln1, N1.
+    destruct (IH _ _ _ _ _ _ _ _ _ (mkCS (cs_id c0) (cs_T c0) (cs_acc c0 ++ [x])) C0 I1 X1 Hns') as (I2 & X2 & Ln2 & N2).
+    { intros y Hy. apply Hin. right. exact Hy. }
+    cbv zeta in I2, X2, Ln2, N2. cbn [cs_id cs_T cs_acc] in *. rewrite <- app_assoc in X2. cbn [app] in X2.
+    change (cids (mkCS (cs_id c0) (cs_T c0) (cs_acc c0 ++ [x]) :: C0)) with (cids (c0 :: C0)) in *.
+    split. exact I2. split. exact X2. split; congruence.
+Qed.
+
+Lemma names_eq_bind_all : forall names f acc, names_eq (fdyn f) acc -> names_eq (fdyn (bind_all (others names) f)) (acc ++ names).
+Proof.
+  induction names as [|n names IH]; intros f acc H. rewrite app_nil_r. exact H.
+  change (bind_all (others (n :: names)) f) with (bind_all (others names) (bind n BOther f)).
+  assert (E : acc ++ n :: names = (acc ++ [n]) ++ names) by (rewrite <- app_assoc; reflexivity).
+  rewrite E. apply IH. apply (names_eq_bind f [] acc n BOther H).
+Qed.
+
+Lemma bind_all_static : forall bs f, fk (bind_all bs f) = fk f /\ flocals (bind_all bs f) = flocals f.
+Proof. induction bs as [|[x b] bs IH]; intro f. auto. cbn [bind_all fold_left]. apply (IH (bind x b f)). Qed.
+
+(* entering and leaving a comprehension scope *)
+Lemma center : forall exp l L' acc accs ex s e tr Cf T0,
+  Inv2 exp l L' acc accs ex s e tr -> CX exp ex s Cf ->
+  let K := next_id s in
+  let s1 := snd (new_scope s KNormal []) in
+  let cK := mkCS K T0 [] in
+  Inv2 (upd exp K T0) l L' acc accs (K :: ex) s1 e tr /\ CX (upd exp K T0) (K :: ex) s1 (cK :: Cf) /\
+  next_id s1 = S K /\ lineno s1 = lineno s /\ ext K exp (upd exp K T0) /\ ce_ok cK (comp_frame T0).
+Proof.
+  intros exp l L' acc accs ex s e tr Cf T0 HI [HF Hin Hnd Hdel]. cbv zeta.
+  destruct (open_scope exp l L' acc accs ex s e tr T0 HI) as (I1 & Nx1 & Ln1 & Fd1 & Hempty & X1 & HAoff & HAd).
+  cbv zeta in I1, Nx1, Ln1, Fd1, Hempty, X1, HAoff, HAd.
+  set (K := next_id s) in *. set (s1 := snd (new_scope s KNormal [])) in *.
+  pose proof (st_sinv _ _ _ _ _ (i_st _ _ _ _ _ _ _ _ _ HI)) as HS0.
+  assert (Hsd : forall i, scope_dict s1 i = if Nat.eqb i K then [] else scope_dict s i)
+    by (intro i; apply scope_dict_new; apply (sv_fresh s HS0)).
+  pose proof HF as HF'. unfold CF in HF'. rewrite Forall_forall in HF'.
+  split. exact I1. split; [|split; [exact Nx1|split; [exact Ln1|split; [exact X1|]]]].
+  - constructor.
+    + unfold CF. constructor.
+      * cbn [cs_id cs_T cs_acc]. split. intro x. rewrite Hempty. cbn. split. discriminate. intros [].
+        split. intros x []. split. intro x. unfold upd. rewrite Nat.eqb_refl. reflexivity. cbn [cs_id]. rewrite Nx1. lia.
+      * rewrite Forall_forall. intros c Hc. destruct (HF' c Hc) as (B1 & B2 & B3 & B4). fold K in B4.
+        assert (Hne : Nat.eqb (cs_id c) K = false) by (apply Nat.eqb_neq; lia).
+        split. intro x. unfold has. rewrite Hsd, Hne. apply B1. split. exact B2.
+        split. intro x. unfold upd. rewrite Hne. apply B3. rewrite Nx1. lia.
+    + intros c [<-|Hc]. left. reflexivity. right. apply Hin. exact Hc.
+    + cbn [map cs_id]. constructor; auto. intro Hk. apply in_map_iff in Hk as (c & E & Hc).
+      destruct (HF' c Hc) as (_ & _ & _ & B4). fold K in B4. lia.
+    + intros c [<-|Hc]. exact HAd. apply Hdel. exact Hc.
+  - unfold ce_ok, comp_frame. cbn [fk flocals fdyn cs_T cs_acc]. split. reflexivity. split. intro x. apply mem_In.
+    intro x. cbn. split. congruence. intros [].
+Qed.
+
+Lemma cleave : forall exp l L' acc accs ex s e tr cK Cf,
+  Inv2 exp l L' acc accs (cs_id cK :: ex) s e tr -> CX exp (cs_id cK :: ex) s (cK :: Cf) ->
+  (forall x, In x (cs_T cK) -> In x (cs_acc cK)) ->
+  Inv2 exp l L' acc accs ex s e tr /\ CX exp ex s Cf.
+Proof.
+  intros exp l L' acc accs ex s e tr cK Cf [HS HX HL HC HE HT] [HF Hin Hnd Hdel] Hall.
+  pose proof HF as HF'. unfold CF in HF'. rewrite Forall_forall in HF'.
+  destruct (HF' cK (or_introl eq_refl)) as (A1 & A2 & A3 & A4).
+  split.
+  - constructor; auto.
+    + eapply close_ex. exact HS. intro x. rewrite A1, A3. split; auto.
+    + constructor. intros i Hi. apply (ex_off _ _ HX). right. exact Hi.
+    + intros i Hi. apply HL. right. exact Hi.
+  - cbn [map] in Hnd. inversion Hnd as [|? ? Hn Hnd']; subst.
+    constructor.
+    + inversion HF; assumption.
+    + intros c Hc. destruct (Hin c (or_intror Hc)) as [E|E]; auto. exfalso. apply Hn. rewrite E. apply in_map. exact Hc.
+    + exact Hnd'.
+    + intros c Hc. apply Hdel. right. exact Hc.
+Qed.
+
+(* ---------- expressions inside a comprehension ---------- *)
+Definition CPost (exp : expmap) (l : lvl) (L' : list lvl) (acc : list name) (accs : list (list name)) (ex : list nat)
+                 (s : st) (e : env) (tr : list rd) (s' : st) (rds : list rd) (Cf' : list cscope) : Prop :=
+  exists exp', ext (next_id s) exp exp' /\ Inv2 exp' l L' acc accs ex s' e (tr ++ rds) /\ CX exp' ex s' Cf' /\
+               lineno s' = lineno s /\ next_id s <= next_id s'.
+
+Lemma CPost_refl : forall exp l L' acc accs ex s e tr Cf,
+  Inv2 exp l L' acc accs ex s e tr -> CX exp ex s Cf -> CPost exp l L' acc accs ex s e tr s [] Cf.
+Proof. intros. exists exp. split. apply ext_refl. rewrite app_nil_r. auto. Qed.
+
+Lemma CPost_seq : forall exp l L' acc accs ex s e tr s1 r1 Cf1 s2 r2 Cf2,
+  CPost exp l L' acc accs ex s e tr s1 r1 Cf1 ->
+  (forall exp1, Inv2 exp1 l L' acc accs ex s1 e (tr ++ r1) -> CX exp1 ex s1 Cf1 ->
+                CPost exp1 l L' acc accs ex s1 e (tr ++ r1) s2 r2 Cf2) ->
+  CPost exp l L' acc accs ex s e tr s2 (r1 ++ r2) Cf2.
+Proof.
+  intros exp l L' acc accs ex s e tr s1 r1 Cf1 s2 r2 Cf2 (exp1 & X1 & I1 & C1 & Ln1 & N1) H2.
+  destruct (H2 exp1 I1 C1) as (exp2 & X2 & I2 & C2 & Ln2 & N2).
+  exists exp2. split. eapply ext_trans; [exact N1|exact X1|exact X2].
+  rewrite app_assoc. split. exact I2. split. exact C2. split. congruence. lia.
+Qed.
+
+Definition PC (x : expr) : Prop := c3_expr x = true ->
+  forall exp l L' acc accs ex s e tr Cf C ks,
+  Inv2 exp l L' acc accs ex s e tr -> CX exp ex s Cf -> CE C ks -> Shape Cf C -> Cf <> [] ->
+  (C = Cf \/ s1_expr x = true) ->
+  CPost exp l L' acc accs ex s e tr (vexpr false x (stack_of (l :: L') ++ cids Cf) s) (sem_expr (lineno s) (ks ++ e) x) Cf.
+
+Lemma c3go_eq : forall l,
+  (fix go (l : list expr) : bool := match l with [] => true | x :: r => c3_expr x && go r end) l = forallb c3_expr l.
+Proof. reflexivity. Qed.
+Lemma s1go_eq : forall l,
+  (fix go (l : list expr) : bool := match l with [] => true | x :: r => s1_expr x && go r end) l = forallb s1_expr l.
+Proof. reflexivity. Qed.
+
+Lemma cexprs : forall es, Forall PC es -> forallb c3_expr es = true ->
+  forall exp l L' acc accs ex s e tr Cf C ks,
+  Inv2 exp l L' acc accs ex s e tr -> CX exp ex s Cf -> CE C ks -> Shape Cf C -> Cf <> [] ->
+  (C = Cf \/ forallb s1_expr es = true) ->
+  CPost exp l L' acc accs ex s e tr (vexpr_list false es (stack_of (l :: L') ++ cids Cf) s) (sem_exprs (lineno s) (ks ++ e) es) Cf.
+Proof.
+  intros es HF. induction HF as [|x es Hx HF IH]; intros Hs exp l L' acc accs ex s e tr Cf C ks HI HX HCE Hsh Hne H1.
+  - apply CPost_refl; auto.
+  - cbn in Hs. apply andb_true_iff in Hs as [Ha Hb].
+    assert (H1x : C = Cf \/ s1_expr x = true).
+    { destruct H1 as [H1|H1]; auto. cbn in H1. apply andb_true_iff in H1 as [A _]. auto. }
+    assert (H1r : C = Cf \/ forallb s1_expr es = true).
+    { destruct H1 as [H1|H1]; auto. cbn in H1. apply andb_true_iff in H1 as [_ B]. auto. }
+    unfold vexpr_list, sem_exprs. cbn [fold_left flat_map].
+    pose proof (Hx Ha _ _ _ _ _ _ _ _ _ _ _ _ HI HX HCE Hsh Hne H1x) as P1.
+    assert (Eln : lineno (vexpr false x (stack_of (l :: L') ++ cids Cf) s) = lineno s).
+    { destruct P1 as (? & _ & _ & _ & E & _). exact E. }
+    eapply CPost_seq. exact P1. intros exp1 I1 X1.
+    pose proof (IH Hb _ _ _ _ _ _ _ _ _ _ _ _ I1 X1 HCE Hsh Hne H1r) as P2. rewrite Eln in P2. exact P2.
+Qed.
+
+(* ---------- generators ---------- *)
+Definition vgens (track : bool) (gens : list gen) (stk : stack) (s : st) : st :=
+  fold_left (fun s g => vgen track g stk s) gens s.
+Fixpoint sem_gens (ln : nat) (outer : env) (gens : list gen) (first : bool) (k : frame) : frame * list rd :=
+  match gens with
+  | [] => (k, [])
+  | g :: r => let '(k1, ra) := sem_gen ln outer k first g in
+              let '(k2, rb) := sem_gens ln outer r false k1 in (k2, ra ++ rb)
+  end.
+
+Lemma vggo_eq : forall track stk l s,
+  (fix go (l : list gen) (s : st) : st := match l with [] => s | g :: r => go r (vgen track g stk s) end) l s = vgens track l stk s.
+Proof. intros track stk l. induction l as [|g l IH]; intro s. reflexivity. unfold vgens. cbn [fold_left]. apply IH. Qed.
+Lemma sggo_eq : forall ln e l first k,
+  (fix go (l : list gen) (first : bool) (k : frame) : frame * list rd :=
+     match l with
+     | [] => (k, [])
+     | g :: r => let '(k1, ra) := sem_gen ln e k first g in let '(k2, rb) := go r false k1 in (k2, ra ++ rb)
+     end) l first k = sem_gens ln e l first k.
+Proof.
+  intros ln e l. induction l as [|g l IH]; intros first k. reflexivity.
+  cbn [sem_gens]. destruct (sem_gen ln e k first g) as [k1 ra]. rewrite IH. reflexivity.
+Qed.
+
+Lemma vexpr_comp_eq : forall gens elts stk s,
+  vexpr false (EComp gens elts) stk s =
+  (let '(stkK, s1) := push s stk true false false in
+   let s2 := vgens false gens stkK s1 in
+   let s3 := vexpr_list false elts stkK s2 in
+   pop s3 (top stkK)).
+Proof. intros. cbn [vexpr]. destruct (push s stk true false false) as [stkK s1]. rewrite vggo_eq, vgo_eq. reflexivity. Qed.
+Lemma sem_comp_eq : forall ln e gens elts,
+  sem_expr ln e (EComp gens elts) =
+  (let '(k, r1) := sem_gens ln e gens true (comp_frame (gen_targets gens)) in r1 ++ sem_exprs ln (k :: e) elts).
+Proof. intros. cbn [sem_expr]. rewrite sggo_eq. destruct (sem_gens ln e gens true (comp_frame (gen_targets gens))) as [k r1]. rewrite sgo_eq. reflexivity. Qed.
+Lemma vgen_eq : forall iter tgt ifs stk s,
+  vgen false (Gen iter tgt ifs) stk s = vexpr_list false ifs stk (vtarget false tgt stk (vexpr false iter stk s)).
+Proof. intros. cbn [vgen]. rewrite vgo_eq. reflexivity. Qed.
+Lemma sem_gen_eq : forall ln outer k first iter tgt ifs,
+  sem_gen ln outer k first (Gen iter tgt ifs) =
+  (let r1 := sem_expr ln (if first then outer else k :: outer) iter in
+   let '(k1, r2) := exec_target ln outer k tgt in
+   (k1, r1 ++ r2 ++ sem_exprs ln (k1 :: outer) ifs)).
+Proof. intros. cbn [sem_gen]. destruct (exec_target ln outer k tgt) as [k1 r2]. rewrite sgo_eq. reflexivity. Qed.
+
+Lemma s1_c3 : forall x, s1_expr x = true -> c3_expr x = true.
+Proof.
+  intro x. induction x using expr_ind' with (Q := fun _ => True); try exact I; cbn [s1_expr c3_expr]; intro Hs; try discriminate; auto.
+  rewrite s1go_eq in Hs. rewrite c3go_eq. induction H as [|y es Hy HF IH]. reflexivity.
+  cbn in Hs |- *. apply andb_true_iff in Hs as [A B]. rewrite (Hy A). cbn. apply IH. exact B.
+Qed.
+
+Definition gen_tnames (g : gen) : list name := match g with Gen _ t _ => target_names t end.
+
+Definition PG (g : gen) : Prop := forall first, c3_gen first g = true ->
+  forall exp l L' acc accs ex s e tr c0 C0 k ks0,
+  Inv2 exp l L' acc accs ex s e tr -> CX exp ex s (c0 :: C0) -> CE (c0 :: C0) (k :: ks0) ->
+  (first = true -> cs_acc c0 = []) -> incl (gen_tnames g) (cs_T c0) ->
+  let c0' := mkCS (cs_id c0) (cs_T c0) (cs_acc c0 ++ gen_tnames g) in
+  CPost exp l L' acc accs ex s e tr (vgen false g (stack_of (l :: L') ++ cids (c0 :: C0)) s)
+        (snd (sem_gen (lineno s) (ks0 ++ e) k first g)) (c0' :: C0) /\
+  CE (c0' :: C0) (fst (sem_gen (lineno s) (ks0 ++ e) k first g) :: ks0).
+
+Lemma gen_case : forall iter tgt ifs, PC iter -> Forall PC ifs -> PG (Gen iter tgt ifs).
+Proof.
+  intros iter tgt ifs Hiter Hifs first Hs exp l L' acc accs ex s e tr c0 C0 k ks0 HI HX HCE Hfirst Hin. cbv zeta.
+  cbn [c3_gen] in Hs. rewrite c3go_eq in Hs. apply andb_true_iff in Hs as [Hs Hcifs]. apply andb_true_iff in Hs as [Hciter Htgt].
+  cbn [gen_tnames] in *. rewrite vgen_eq, sem_gen_eq. cbv zeta.
+  rewrite exec_target_s1 by exact Htgt.
+  inversion HCE as [|? ? ? ? Hk0 HCE0]; subst.
+  set (stkx := stack_of (l :: L') ++ cids (c0 :: C0)) in *.
+  (* the iterable *)
+  assert (P1 : CPost exp l L' acc accs ex s e tr (vexpr false iter stkx s)
+                     (sem_expr (lineno s) (if first then ks0 ++ e else k :: ks0 ++ e) iter) (c0 :: C0)).
+  { destruct first.
+    - apply (Hiter (s1_c3 _ Hciter) _ _ _ _ _ _ _ _ _ (c0 :: C0) C0 ks0 HI HX HCE0).
+      + right. exists c0. split. reflexivity. apply Hfirst. reflexivity.
+      + discriminate.
+      + right. exact Hciter.
+    - apply (Hiter Hciter _ _ _ _ _ _ _ _ _ (c0 :: C0) (c0 :: C0) (k :: ks0) HI HX HCE).
+      + left. reflexivity.
+      + discriminate.
+      + left. reflexivity. }
+  destruct P1 as (exp1 & X1 & I1 & C1 & Ln1 & N1).
+  set (s1 := vexpr false iter stkx s) in *.
+  (* the target *)
+  rewrite vtarget_s1 by exact Htgt.
+  assert (Etop : top stkx = cs_id c0). { unfold stkx. rewrite cids_cons, app_assoc. apply top_snoc. }
+  rewrite (fold_left_ext' _ _ _ (fun s n => store false s stkx [n] Plain)) by (intros; rewrite store_false; reflexivity).
+  destruct (cnames (target_names tgt) _ _ _ _ _ _ _ _ _ c0 C0 I1 C1 (target_names_not_star tgt Htgt) Hin) as (I2 & C2 & Ln2 & N2).
+  cbv zeta in I2, C2, Ln2, N2. fold stkx in I2, C2, Ln2, N2.
+  set (s2 := fold_left (fun s n => store false s stkx [n] Plain) (target_names tgt) s1) in *.
+  set (c0' := mkCS (cs_id c0) (cs_T c0) (cs_acc c0 ++ target_names tgt)) in *.
+  set (k1 := bind_all (others (target_names tgt)) k).
+  assert (HCE1 : CE (c0' :: C0) (k1 :: ks0)).
+  { constructor; [|exact HCE0]. destruct Hk0 as (A & B & D). destruct (bind_all_static (others (target_names tgt)) k) as [E1 E2].
+    split. unfold k1. rewrite E1. exact A. split. intro x. unfold k1. rewrite E2. apply B.
+    apply names_eq_bind_all. exact D. }
+  cbn [fst snd].
+  split; [|exact HCE1].
+  (* the conditions *)
+  assert (P3 : CPost exp1 l L' acc accs ex s2 e (tr ++ sem_expr (lineno s) (if first then ks0 ++ e else k :: ks0 ++ e) iter)
+                     (vexpr_list false ifs stkx s2) (sem_exprs (lineno s2) ((k1 :: ks0) ++ e) ifs) (c0' :: C0)).
+  { change stkx with (stack_of (l :: L') ++ cids (c0' :: C0)).
+    apply (cexprs ifs Hifs Hcifs _ _ _ _ _ _ _ _ _ (c0' :: C0) (c0' :: C0) (k1 :: ks0) I2 C2 HCE1).
+    left; reflexivity. discriminate. left; reflexivity. }
+  destruct P3 as (exp3 & X3 & I3 & C3 & Ln3 & N3).
+  exists exp3. split. { eapply ext_trans; [exact N1|exact X1|]. intros i Hi. apply X3. lia. }
+  assert (Eln2 : lineno s2 = lineno s) by congruence. rewrite Eln2 in I3.
+  split. { cbn [app]. rewrite <- app_assoc in I3. exact I3. }
+  split. exact C3. split. congruence. lia.
+Qed.
